@@ -372,7 +372,190 @@ pub fn run(opts: &Opts) -> i32 {
         rep.sample(json!({"backend": format!("{kind:?}"), "sequence": seqs[seqs.len() / 2]}));
         println!("[C08] {kind:?}: alphabet {} ^ depth {depth} = {} sequences, {nontrivial} with a rejection, {sk} skipped ({:.1}s)", alpha.len(), seqs.len(), rep.elapsed());
     }
+    replica_level(&rep, opts.tier);
     rep.finish()
+}
+
+
+// ---------------------------------------------------------------- whole replicas through the backends
+
+use super::syncworld::{act_str, do_local, Act, World};
+
+/// Run a history of local actions and syncs with real replicas against a real backend (every
+/// sync opens its own handle, as every CLI invocation does), quiesce, and return the converged
+/// tasks.
+fn history_on_backend(kind: BackendKind, r: usize, acts: &[Act]) -> Result<crate::model::ops::Tasks, String> {
+    use crate::world::proxy::Ctl;
+    use crate::world::replicas::with_replica;
+    let mut w = World::new(r);
+    crate::util::block_on(async {
+        let b = Backend::new(kind, 0).await;
+        let handle_of = |i: usize| if Backend::max_handles(kind) == 1 { 0 } else { i % 2 };
+        for a in acts {
+            match a {
+                Act::Sync { r: i, .. } => {
+                    let mut h = b.open(handle_of(*i)).await;
+                    with_replica(&mut w.reps[*i], Ctl::new(), async |rep| rep.sync(&mut h, true).await.map_err(|e| format!("replica-sync-failed: {}: {e:#}", act_str(a)))).await?;
+                    w.obs[*i] = std::sync::Arc::new(crate::world::replicas::observe(&mut w.reps[*i]).await);
+                }
+                _ => {
+                    do_local_async(&mut w, a).await?;
+                }
+            }
+        }
+        for round in 0..4 {
+            for i in 0..r {
+                let mut h = b.open(handle_of(i)).await;
+                with_replica(&mut w.reps[i], Ctl::new(), async |rep| rep.sync(&mut h, true).await.map_err(|e| format!("replica-sync-failed: quiescing sync of replica {i}: {e:#}"))).await?;
+            }
+            // settled once a whole round (after the first) left everybody equal with nothing pending
+            if round >= 1 {
+                let mut obs = vec![];
+                for i in 0..r {
+                    obs.push(crate::world::replicas::observe(&mut w.reps[i]).await);
+                }
+                if obs.iter().all(|o| o.unsynced.is_empty() && o.tasks == obs[0].tasks && o.base == obs[0].base) {
+                    break;
+                }
+            }
+        }
+        let mut all = vec![];
+        for i in 0..r {
+            all.push(crate::world::replicas::observe(&mut w.reps[i]).await);
+        }
+        for o in &all {
+            if o.tasks != all[0].tasks {
+                return Err(format!("replica-divergence: replicas synced through the {kind:?} backend hold {} and {}", crate::world::replicas::tasks_str(&all[0].tasks), crate::world::replicas::tasks_str(&o.tasks)));
+            }
+            if !o.unsynced.is_empty() {
+                return Err("replica-pending: a replica still has unsynchronized operations after four rounds of syncs".into());
+            }
+        }
+        Ok(all[0].tasks.clone())
+    })
+}
+
+async fn do_local_async(w: &mut World, a: &Act) -> Result<(), String> {
+    use crate::world::proxy::Ctl;
+    use crate::world::replicas::with_replica;
+    let r = a.replica();
+    let obs = w.obs[r].clone();
+    let Some(op) = super::syncworld::local_op(&obs.tasks, a) else { return Ok(()) };
+    with_replica(&mut w.reps[r], Ctl::new(), async |rep| rep.commit_operations(vec![op]).await.map_err(|e| format!("commit failed: {e:#}"))).await?;
+    w.obs[r] = std::sync::Arc::new(crate::world::replicas::observe(&mut w.reps[r]).await);
+    Ok(())
+}
+
+/// The histories: every history of the C01 alphabet (2 replicas, small update set) of the given
+/// depth that contains at least two syncs, deduplicated by the state they reach.
+fn histories(depth: usize, max: usize) -> Vec<Vec<Act>> {
+    use super::syncsys::{small_updates, SyncSys};
+    use crate::explore::state::{explore, StateCfg, Sys};
+    struct Collect {
+        inner: SyncSys,
+        out: std::sync::Mutex<Vec<Vec<Act>>>,
+    }
+    impl Sys for Collect {
+        type State = World;
+        type Action = Act;
+        fn init(&self) -> World {
+            self.inner.init()
+        }
+        fn actions(&self, s: &World, l: usize) -> Vec<Act> {
+            self.inner.actions(s, l)
+        }
+        fn step(&self, s: &World, a: &Act) -> Result<World, String> {
+            self.inner.step(s, a)
+        }
+        fn canon(&self, s: &World) -> u128 {
+            self.inner.canon(s)
+        }
+        fn check(&self, _s: &World, t: &[Act]) -> Result<bool, String> {
+            if t.iter().filter(|a| a.is_sync()).count() >= 2 && t.iter().any(|a| !a.is_sync() && a.replica() == 1) {
+                self.out.lock().unwrap().push(t.to_vec());
+            }
+            Ok(false)
+        }
+    }
+    let mut inner = SyncSys::new(2);
+    inner.updates = small_updates();
+    inner.c01 = false;
+    let c = Collect { inner, out: Default::default() };
+    let _ = explore(&c, &StateCfg { max_depth: depth, deadline: None, max_found: 1, first_depth: depth });
+    let mut v = c.out.into_inner().unwrap();
+    v.sort_by_key(|t| (std::cmp::Reverse(t.len()), format!("{t:?}")));
+    // spread the selection over the list
+    let step = (v.len() / max.max(1)).max(1);
+    v.into_iter().step_by(step).take(max).collect()
+}
+
+fn replica_level(rep: &Report, tier: Tier) {
+    let q = tier == Tier::Quick;
+    let plan: Vec<(BackendKind, usize)> = vec![
+        (BackendKind::Cloud, if q { 300 } else { 5000 }),
+        (BackendKind::Local, if q { 150 } else { 2000 }),
+        (BackendKind::Http, if q { 40 } else { 400 }),
+        (BackendKind::GitLocal, if q { 3 } else { 40 }),
+        (BackendKind::GitRemote, if q { 2 } else { 30 }),
+    ];
+    let only = std::env::var("TCMC_BACKEND").ok();
+    for (kind, max) in plan {
+        if only.as_ref().is_some_and(|o| format!("{kind:?}") != *o) {
+            continue;
+        }
+        let hs = histories(if q { 6 } else { 7 }, max);
+        let work = || -> Vec<(usize, Result<(), String>)> {
+            hs.par_iter()
+                .enumerate()
+                .map(|(i, h)| {
+                    if rep.over_budget() {
+                        return (i, Ok(()));
+                    }
+                    let r = (|| {
+                        let want = history_on_backend_reference(h)?;
+                        let got = history_on_backend(kind, 2, h)?;
+                        if got != want {
+                            return Err(format!("replica-result: through the {kind:?} backend the replicas converge to {} but through the reference chain server to {}", crate::world::replicas::tasks_str(&got), crate::world::replicas::tasks_str(&want)));
+                        }
+                        Ok(())
+                    })();
+                    (i, r)
+                })
+                .collect()
+        };
+        let results = if matches!(kind, BackendKind::GitLocal | BackendKind::GitRemote) { rayon::ThreadPoolBuilder::new().num_threads(2).build().unwrap().install(work) } else { work() };
+        for (i, r) in results {
+            if let Err(e) = r {
+                rep.violation(Violation::new(
+                    format!("{}:{kind:?}:replicas", e.split(':').next().unwrap_or("")),
+                    format!("{e} [history {:?}]", hs[i].iter().map(act_str).collect::<Vec<_>>()),
+                    json!({"kind": "c08-history", "backend": kind, "history": hs[i].iter().map(|a| json!({"act": a})).collect::<Vec<_>>()}),
+                ));
+            }
+        }
+        rep.add("replica_histories", hs.len() as u64);
+        rep.add("states", hs.len() as u64);
+        rep.add("transitions", hs.iter().map(|h| h.len() as u64).sum::<u64>());
+        rep.add("traces_validated_against_impl", hs.len() as u64);
+        rep.set(&format!("replica_level_{kind:?}"), json!({"histories": hs.len()}));
+        println!("[C08] {kind:?}: {} replica-level histories compared with the reference chain server ({:.1}s)", hs.len(), rep.elapsed());
+    }
+}
+
+/// The same history against the harness chain server.
+fn history_on_backend_reference(acts: &[Act]) -> Result<crate::model::ops::Tasks, String> {
+    let mut w = World::new(2);
+    for a in acts {
+        match a {
+            Act::Sync { r, .. } => {
+                super::syncworld::do_sync(&mut w, *r, super::syncworld::Urg::None, true, None, None).result.map_err(|e| format!("reference: {e}"))?;
+            }
+            _ => {
+                do_local(&mut w, a)?;
+            }
+        }
+    }
+    super::syncworld::quiesce(&w).map(|(t, _)| t)
 }
 
 pub fn replay(case: &serde_json::Value) -> Result<(), String> {
